@@ -986,7 +986,7 @@ def check_bisect_preconditions(ctx, rule: str, module_names: List[str]) -> int:
                         raise AnalysisError(f"{fi.where}: `{name}` is grown by `{unparse(offender)[:50]}`; that it stays sorted for `{unparse(call)[:40]}` is not decided")
                     raise AnalysisError(f"{fi.where}: `{name}` is modified by `{unparse(offender)[:50]}`; sortedness not decided")
                 if isinstance(v, ast.Call) and call_name(v) in (("list",), ("tuple",)) and len(v.args) == 1 and isinstance(v.args[0], ast.Call) and call_name(v.args[0]) in (("set",), ("frozenset",)):
-                    ctx.violation(rule, fi, call, f"`{unparse(call)[:60]}` runs a binary search on `{name}` = `{unparse(v)[:40]}`: the iteration order of a set is not sorted")
+                    ctx.violation(rule, fi, call, f"`{unparse(call)[:60]}` runs a binary search on `{name}` = `{unparse(v)[:40]}`: the iteration order of a set is not sorted", robust=True)
                     continue
                 raise AnalysisError(f"{fi.where}: `{unparse(call)[:60]}` searches `{name}` = `{unparse(v)[:50]}`, whose order is not established in this function")
     return n_sites
@@ -1003,3 +1003,44 @@ def ct(src: str) -> str:
     if len(new.body) == 1 and isinstance(new.body[0], ast.Expr):
         return ast.unparse(new.body[0].value)
     return "\n".join(ast.unparse(s) for s in new.body)
+
+
+# ----------------------------------------------------------------------------- textual expectations: point change or restructured?
+
+import re as _re
+
+_TOK = _re.compile(r"[A-Za-z_][A-Za-z_0-9]*|\d+|\S")
+
+
+def token_distance(a: str, b: str) -> int:
+    """Levenshtein distance between the token sequences of two pieces of canonical source text."""
+    x, y = _TOK.findall(a), _TOK.findall(b)
+    prev = list(range(len(y) + 1))
+    for i, tx in enumerate(x, 1):
+        cur = [i]
+        for j, ty in enumerate(y, 1):
+            cur.append(min(prev[j] + 1, cur[j - 1] + 1, prev[j - 1] + (tx != ty)))
+        prev = cur
+    return prev[-1]
+
+
+def near_text(got, wants, k: int = 3) -> bool:
+    """Is ``got`` (text or list of statement texts) within ``k`` token edits of one of the expected spellings?  Rules that expect a
+    particular text use this to tell a point change of it (evidence of a defect) from restructured code (no evidence)."""
+    g = "; ".join(got) if isinstance(got, (list, tuple)) else str(got)
+    for w in wants:
+        wt = "; ".join(w) if isinstance(w, (list, tuple)) else str(w)
+        if token_distance(g, wt) <= k:
+            return True
+    return False
+
+
+def deviates(ctx, rule: str, fi, node, got, wants, message: str, k: int = 3, absent_is_violation: bool = True) -> None:
+    """``got`` is not one of ``wants``: report a violation when it is a small edit of an expected spelling (or is absent
+    altogether), otherwise say the construct was not recognised (undecided)."""
+    absent = got is None or got == [] or got == ""
+    if (absent and absent_is_violation) or (not absent and near_text(got, wants, k)):
+        ctx.violation(rule, fi, node, message, robust=True)
+        return
+    shown = "; ".join(got) if isinstance(got, (list, tuple)) else str(got)
+    raise AnalysisError(f"{fi.where}: `{shown[:90]}` is not the expected construct nor a small edit of it ({rule}: {message[:80]})")
